@@ -415,6 +415,9 @@ class Target:
                 status, ext = 0x01, [0x0113]
             elif large and self.policy.large_fo.startswith("refuse08"):
                 status, ext = 0x08, []
+            elif (self.policy.large_fo if large else self.policy.std_fo).startswith("refuse:"):
+                # any other general status, e.g. vendor specific or reserved ones ('refuse:d0')
+                status, ext = int((self.policy.large_fo if large else self.policy.std_fo)[7:], 16), []
             else:
                 status, ext = 0x01, [0x0109]
             self.refused.append((kind, status))
